@@ -25,6 +25,9 @@ Inductive case :=
 | KOverlay (secs : list (Z * Z)) (file_len off size : Z)
 (* a count reported by a module against the bound the property demands for it *)
 | KCount (bound observed : Z)
+(* one carrier file, `mutations` single-field boundary mutations of it: how many invocations
+   returned, how many returned and stayed within the time and memory bounds *)
+| KSweep (mutations returned within_bounds : Z)
 | KElf (exe : bool) (segs : list phdr) (secs : list shdr) (rva : Z) (obs : option Z).
 
 Definition oz_eqb (a b : option Z) : bool :=
@@ -73,6 +76,7 @@ Definition check_case (k : case) : bool :=
   match k with
   | KRun _ _ _ => true
   | KCount _ _ => true
+  | KSweep _ _ _ => true
   | KUleb b obs => lres_eqb (uleb128 b) obs
   | KSleb b obs => lres_eqb (sleb128 b) obs
   | KVarU b obs => ozn_eqb (var_uint b) obs
@@ -103,5 +107,6 @@ Definition spec_case (k : case) : bool :=
   match k with
   | KRun r d t => r && d && t
   | KCount bound observed => observed <=? bound
+  | KSweep n r w => (r =? n) && (w =? n)
   | _ => true
   end.
